@@ -686,10 +686,10 @@ v("C05", "sendmsg-takes-respmu", "inprocgrpc/in_process.go",
 	defer s.respMu.Unlock()
 """, "R4", "order:", "send takes the receive lock too: deadlock when the receiver blocks")
 v("C05", "drop-defer-cancel", "inprocgrpc/in_process.go",
-  """	sts := internal.UnaryServerTransportStream{Name: method}
+  """	svrCtx := makeServerContext(ctx)
 
 	defer cancel()
-	ch := make(chan frame, 1)""", """	sts := internal.UnaryServerTransportStream{Name: method}
+	ch := make(chan frame, 1)""", """	svrCtx := makeServerContext(ctx)
 
 	_ = cancel
 	ch := make(chan frame, 1)""", "R6", "cancel", "server goroutine never released if the handler ignores its frames' fate")
